@@ -644,6 +644,60 @@ func (A *Analysis) expandPhi(x *ssa.Phi) *F {
 	return DropInessential(Or(alts...))
 }
 
+// FlagSupport returns the atoms that the boolean phis tested by branches of the given blocks are computed from (the
+// operands of those phis, transitively through other phis): tracking them lets the phis be followed as derived flags.
+// At most max atoms are returned (nil if more would be needed).
+func (A *Analysis) FlagSupport(blocks map[*ssa.BasicBlock]bool, max int) []int {
+	need := map[int]bool{}
+	seen := map[*ssa.Phi]bool{}
+	var visit func(ph *ssa.Phi, at *Atom)
+	visit = func(ph *ssa.Phi, at *Atom) {
+		if seen[ph] {
+			return
+		}
+		seen[ph] = true
+		for ei, e := range ph.Edges {
+			var f *F
+			if at != nil {
+				f = A.PhiEdgeCond(at, ei)
+			} else {
+				f = A.Cond(e)
+			}
+			m := map[int]bool{}
+			f.Atoms(m)
+			for k := range m {
+				if p2 := A.Atoms[k].Phi; p2 != nil {
+					visit(p2, A.Atoms[k])
+					continue
+				}
+				need[k] = true
+			}
+		}
+	}
+	for b := range blocks {
+		ifi, ok := b.Instrs[len(b.Instrs)-1].(*ssa.If)
+		if !ok {
+			continue
+		}
+		m := map[int]bool{}
+		A.Cond(ifi.Cond).Atoms(m)
+		for k := range m {
+			if ph := A.Atoms[k].Phi; ph != nil && !A.loopHd[ph.Block()] {
+				visit(ph, A.Atoms[k])
+			}
+		}
+	}
+	if len(need) > max {
+		return nil
+	}
+	var out []int
+	for k := range need {
+		out = append(out, k)
+	}
+	sort.Ints(out)
+	return out
+}
+
 // PhiTakes returns the condition (over the branch conditions between the phi's block and its immediate dominator) under
 // which a non-loop phi takes its i-th operand; nil if that cannot be expressed (loop header, too many paths).
 func (A *Analysis) PhiTakes(x *ssa.Phi, i int) *F {
